@@ -3,6 +3,7 @@ mod exec;
 mod gen;
 mod mon;
 mod oracle;
+mod selftest;
 mod util;
 
 use std::collections::BTreeMap;
@@ -60,6 +61,9 @@ fn main() {
     util::install_panic_hook();
     let t0 = std::time::Instant::now();
     let report: Report = match prop.as_str() {
+        "SELFTEST" => {
+            std::process::exit(selftest::run());
+        }
         "DEBUGSQL" => {
             debug_sql(&p);
             return;
